@@ -30,8 +30,10 @@ import (
 	"github.com/youchainhq/go-youchain/core/state"
 	"github.com/youchainhq/go-youchain/core/types"
 	"github.com/youchainhq/go-youchain/crypto"
+	"github.com/youchainhq/go-youchain/event"
 	"github.com/youchainhq/go-youchain/params"
 	"github.com/youchainhq/go-youchain/staking"
+	"github.com/youchainhq/go-youchain/youdb"
 )
 
 // VerifC03Msg is a received vote with explicit credential fields.
@@ -39,7 +41,8 @@ type VerifC03Msg struct {
 	VerifVoteMsg
 	Proof    []byte // sortition proof carried by the vote (nil = []byte{1})
 	VoterIdx uint32
-	BadSig   bool // the signature is not recoverable (wrong length)
+	BadSig   bool   // the signature is not recoverable (wrong length)
+	RawSig   []byte // when non-nil: the signature bytes to carry (a BLS signature made by the harness) instead of the secp256k1 one
 }
 
 // VerifC03Step is the raw outcome of one delivery.
@@ -121,7 +124,12 @@ func (d *VerifVoter) C03Vote(m VerifC03Msg) VerifC03Step {
 		if proof == nil {
 			proof = []byte{1}
 		}
-		sig := VerifSignVote(m.Signer, m.Hash, m.Round, m.RoundIndex)
+		var sig []byte
+		if m.RawSig != nil {
+			sig = append([]byte{}, m.RawSig...)
+		} else {
+			sig = VerifSignVote(m.Signer, m.Hash, m.Round, m.RoundIndex)
+		}
 		if m.BadSig {
 			sig = sig[:10]
 		}
@@ -329,4 +337,57 @@ func (w *VerifC03Server) UpdateHeader(ev UpdateExistedHeaderEvent) {
 // VerifC03OverThreshold exposes the quorum test with its float64 product.
 func VerifC03OverThreshold(count uint32, threshold uint64, isPos bool) bool {
 	return OverThreshold(count, threshold, isPos)
+}
+
+// VerifC03VotePayload is the byte string a vote signs: blockHash ‖ round ‖ roundIndex.
+func VerifC03VotePayload(hash common.Hash, round *big.Int, roundIndex uint32) []byte {
+	return append(hash.Bytes(), append(round.Bytes(), uint32ToBytes(roundIndex)...)...)
+}
+
+// NewVerifC03VoterOnServer builds a driven Voter whose parameter manager and look-back manager are the REAL Server
+// (CurrentCaravelParams / CertificateParams / CurrentYouParams / GetLookBackVldReader on the scripted chain), so that with
+// EnableBls in the chain's parameters the Voter signs, recovers and packs votes on the BLS path production uses
+// (VoteBLSMgr.update / SignVote / getAddrFromVote, BlsVerifier.PackVotes / aggregateVotes). Sortition, proposals and the
+// block cache stay scripted through env exactly as in NewVerifVoter. Restart / CrashAtPut of the C02 driver must not be
+// used on the result (they rebuild the Voter with the C02 parameter stub).
+func NewVerifC03VoterOnServer(db youdb.Database, sk *ecdsa.PrivateKey, blsSk bls.SecretKey, env *VerifEnv, srv *VerifC03Server) *VerifVoter {
+	if env == nil {
+		env = &VerifEnv{}
+	}
+	d := &VerifVoter{DB: &VerifCrashDB{Database: db}, Env: env, sk: sk, blsSk: blsSk, stateDB: youdb.NewMemDatabase(),
+		Addr: crypto.PubkeyToAddress(sk.PublicKey)}
+	d.mux = new(event.TypeMux)
+	d.sub = d.mux.Subscribe(SendMessageEvent{}, RoundIndexChangeEvent{}, CommitEvent{}, UpdateExistedHeaderEvent{}, staking.Evidence{})
+	d.V = NewVoter(d.DB, sk, blsSk, d.mux,
+		func(pub *ecdsa.PublicKey, data *SortitionData, lb params.LookBackType) error {
+			if d.Env.VerifySortition != nil {
+				return d.Env.VerifySortition(pub, data, lb)
+			}
+			return nil
+		},
+		func(round *big.Int, roundIndex uint32, step uint32, lb params.LookBackType) (bool, *StepView) {
+			if d.Env.IsValidator != nil {
+				return d.Env.IsValidator(round, roundIndex, step, lb)
+			}
+			return false, nil
+		},
+		func(round *big.Int, roundIndex uint32) (common.Hash, common.Hash, bool) {
+			if d.Env.MaxPriority != nil {
+				return d.Env.MaxPriority(round, roundIndex)
+			}
+			return common.Hash{}, common.Hash{}, false
+		},
+		func(blockHash common.Hash, priority common.Hash) *types.Block {
+			if d.Env.BlockInCache != nil {
+				return d.Env.BlockInCache(blockHash, priority)
+			}
+			return nil
+		},
+		func(round *big.Int, addr common.Address, isProposer bool, lb params.LookBackType) (*big.Int, *big.Int, uint64, params.ValidatorKind, uint8, error) {
+			return srv.S.getLookbackStakeInfo(round, addr, isProposer, lb)
+		},
+		func(round *big.Int, kind params.ValidatorKind, lb params.LookBackType) uint64 { return 0 },
+		srv.S)
+	d.V.SetLookBackMgr(srv.S)
+	return d
 }
